@@ -114,7 +114,7 @@ EXPORT errno_t _strcasecmp_s_chk(const char *dest, rsize_t dmax,
         dmax--;
     }
 
-    *resultp = toupper(*udest) - toupper(*usrc);
+    *resultp = dmax ? toupper(*udest) - toupper(*usrc) : 0;
     return RCNEGATE(EOK);
 }
 #ifdef __KERNEL__
